@@ -20,7 +20,7 @@ from vlib.campaign import Campaign, chash
 from vlib.engine_d import Run
 from vlib.par import run_shards
 from vlib.sched import explore_exhaustive, make_schedule, reference_outcome, schedule_desc
-from vlib.spec import core_corpus, dag_spec, features, loop_spec, stage, ok
+from vlib.spec import core_corpus, dag_spec, features, loop_spec, stage, ok, syn_confluent_spec
 
 LEVEL = "exploration"
 SKIP_CORPUS = ()
@@ -75,6 +75,7 @@ def spec_strategy():
         dag_spec(max_stages=6),
         dag_spec(max_stages=5, allow=("multi", "poll"), joins=("AND", "DISC", "NOFM")),
         loop_spec(),
+        syn_confluent_spec(),
     )
 
 
